@@ -146,6 +146,30 @@ def make_case(rng, n, shape, targets=None, step=None, allow_inputs=True):
     return case
 
 
+def big_case(rng):
+    """directed (P)-only case (seeded/C16_r5: the trace of ONE target is cut at 10000 records): a plan with more than
+    5000 elements under one target - a 10-ary adder tree over 5400 leaves"""
+    cells, elems = [], []
+    level = []
+    nleaf = 5400
+    for k in range(6):
+        cells.append({"name": "c%d" % k, "space": "A", "param": True})
+        for a in range(nleaf // 6):
+            level.append(len(elems))
+            elems.append({"cell": k, "arg": a, "preds": [], "base": rng.randint(1, 9)})
+    ci = 6
+    while len(level) > 1:
+        cells.append({"name": "c%d" % ci, "space": "A", "param": True})
+        nxt = []
+        for a, i in enumerate(range(0, len(level), 10)):
+            nxt.append(len(elems))
+            elems.append({"cell": ci, "arg": a, "preds": level[i:i + 10], "base": rng.randint(1, 9)})
+        level = nxt
+        ci += 1
+    return {"cells": cells, "elems": elems, "inputs": [], "precalc": [], "targets": [level[0]],
+            "step": rng.choice([700, 1000, 2500]), "shape": "big", "kind": "big", "ponly": True}
+
+
 def add_precalc(rng, case, stats):
     """calculated values that exist before generate_actions; only kept when unrelated to the targets (D25)"""
     if case.get("raises") is not None:
@@ -191,6 +215,7 @@ def gen_cases(rng, tier, stats):
             add_precalc(rng, c, stats)
         c["kind"] = "random"
         cases.append(c)
+    cases.append(big_case(rng))
     # one model, all step sizes 1..n+2 for a fixed target (block-boundary sweep)
     for _ in range(3 if tier == "quick" else 40):
         n = rng.randint(6, 14)
@@ -368,7 +393,7 @@ def run(tier, seed, rng):
         if bad:
             out.p_failures.append({"case": c, "impl": r, "detail": "; ".join(bad[:6]), "script": script_for(c)})
     # ---- (T)
-    idx = [i for i, r in enumerate(res) if not r.get("err") and cases[i].get("raises") is None]
+    idx = [i for i, r in enumerate(res) if not r.get("err") and cases[i].get("raises") is None and not cases[i].get("ponly")]
     terms = [coq_term(cases[i], res[i]) for i in idx]
     vterms = [coq_vterm(cases[i], res[i]) for i in idx]
     from concurrent.futures import ThreadPoolExecutor
